@@ -67,6 +67,11 @@ def main(argv=None) -> int:
         broken.append({"kind": "source-scan", "what": p})
     for p in obl["problems"]:
         broken.append({"kind": "proof-obligation", "what": p, "coqc_error": obl.get("coqc_error", "")})
+    chk = None
+    if tier == "thorough" and not obl["problems"]:
+        chk = engine.coqchk_property(pid)
+        for p in chk["problems"]:
+            broken.append({"kind": "proof-obligation", "what": p})
     model_usable = not any(f.startswith("Model/") or f.startswith("Base/") or f.startswith("Spec/") or f.startswith("Gen/")
                            for f in bstat.get("failed", []))
 
@@ -177,6 +182,7 @@ def main(argv=None) -> int:
             "trusted_base": TRUSTED_BASE + list(getattr(mod, "TRUSTED_EXTRA", [])),
             "theorems": obl["theorems"],
             "axioms_per_theorem": obl["axioms"],
+            "coqchk": chk,
             "depends_on_files": obl.get("closure", []),
             "gen_status": bstat.get("gen"),
             "build_wall_s": bstat.get("wall_s"),
